@@ -274,6 +274,15 @@ class TypeState:
                     e = e.func
             return False
 
+        # local names bound to one another by plain `a = b` assignments denote (at some point) the same object
+        alias = {}
+        for n_ in walk_local(func.node):
+            if isinstance(n_, ast.Assign) and len(n_.targets) == 1 and isinstance(n_.targets[0], ast.Name) and isinstance(n_.value, ast.Name):
+                a_, b_ = n_.targets[0].id, n_.value.id
+                grp = alias.get(a_, {a_}) | alias.get(b_, {b_})
+                for x_ in grp:
+                    alias[x_] = grp
+
         def elem_of(ev):
             """text of the element a relation write concerns (added / removed element, owner of the back-pointer, new top)"""
             if ev.field in ("_libraries", "_definitions", "_ports", "_cables", "_children", "_wires") or (ev.cls == "Wire" and ev.field == "_pins"):
@@ -313,7 +322,7 @@ class TypeState:
                         if record and ann and not clone_fam:
                             el = elem_of(ev)
                             here = [(k, a) for (k, a) in margs if k in ann]
-                            if el is not None and here and not any(el in a for (k, a) in here):
+                            if el is not None and here and not any(x_ in a for (k, a) in here for x_ in alias.get(el, {el})):
                                 e5.append((ev, el, sorted(here)))
                         if record:
                             why = None
